@@ -162,6 +162,41 @@ def engineSiteOk (s : EngineSite) : Bool :=
     (!s.iteration && s.trainMask == "" && s.evalMask == "")) &&
   s.project == (if s.iteration then "target_sampling_mask" else "")
 
+/-! ## enum-valued options (`HalfSplitType`, `MaskSplitterType`) handed over as members or as strings -/
+
+/-- `DirectEnum` is a `str`-enum whose `__eq__` accepts plain strings of any case; `__hash__` is the hash of the
+lower-cased value.  So an option may arrive as the member or as a lower / UPPER / MiXeD-case string. -/
+inductive OptForm where
+  | member | lower | upper | mixed
+deriving DecidableEq, Repr
+
+/-- how a piece of code tests an enum-valued value against a member -/
+inductive CmpOp where
+  | eq        -- `==`, `!=`, `in [..]` / `in (..)`, `match` value patterns: all go through `__eq__`
+  | is_       -- identity: only the member itself
+  | hashed    -- `in {..}` / dict lookup: `hash` first — a string hashes like the member only when it is lower-case
+deriving DecidableEq, Repr
+
+/-- does a value of that form pass the test against the member it denotes? -/
+def cmpHolds : CmpOp → OptForm → Bool
+  | .eq, _ => true
+  | .is_, f => f == .member
+  | .hashed, f => f == .member || f == .lower
+
+/-- the branch a dispatch on the direction selects: the denoted one when the test recognises the value, none otherwise
+(the code then falls through: empty masks for horizontal / vertical, the other diagonal for `diagonal_right`) -/
+def resolveDir (op : CmpOp) (f : OptForm) (d : Dir) : Option Dir := if cmpHolds op f then some d else none
+
+/-- classification of the operator texts the translator records -/
+def cmpOfText (s : String) : Option CmpOp :=
+  if ["==", "!=", "in-list", "in-tuple", "not-in-list", "not-in-tuple", "match"].contains s then some .eq
+  else if ["is", "is-not"].contains s then some .is_
+  else if ["in-set", "not-in-set", "in-dict", "dict-key"].contains s then some .hashed
+  else none
+
+/-- every comparison of an enum-valued value goes through `__eq__` -/
+def enumComparesOk (t : List (String × String × String)) : Bool := t.all fun r => cmpOfText r.2.2 == some .eq
+
 /-! ## constructor: admissible ratios -/
 
 /-- `0 < r < 1` for the ratio `r = p / q`, `q > 0` -/
